@@ -56,6 +56,10 @@ CHECKS = {
          "Model-based property test of the import matrix: a vector is created through one of the four entry points in one of six formats under a generated version, filled by a C03-style history (so that holes / page-index regions exist), optionally given a damaged header, and then requested through a generated entry point under a generated (format, version). Match => exactly the stored contents and a working vector; mismatch + plain => DifferentVersion/DifferentFormat with every region of the database byte-identical and the creating pair still importing everything; mismatch + forced => an empty vector (no elements, no deleted slots) that then behaves like a fresh one.",
          "Lock and I/O errors cannot be provoked through the public API, so that clause is not exercised; element type equal on both sides (u32 / u64).",
          "stateful model-based property testing over the (format, version, entry point) matrix (proptest)", "DESIGN.md §4 C14"),
+ "C18": ("E8-proc", "exploration",
+         "Stateful property test over one directory: generated histories of writes/flushes, holders of the first instance added and dropped in any order (Database clones, Readers, region.db() references, a sleeping run_bg task) and further opens (open / open_with_min_len below, at and above the current size) from another thread and from a re-exec'd child process. While any holder lives the attempt must return the lock error and leave both files byte-identical; once the last holder is gone the open must succeed and read back exactly the flushed model.",
+         "flock semantics of tmpfs are assumed equal to the target filesystem's; an attempt that blocks instead of failing is decided by releasing the holders (success afterwards = violation), never by a timeout alone; the last holder always flushes before closing.",
+         "stateful property testing with cross-thread and cross-process open attempts against a reference model (proptest)", "DESIGN.md §4 C18"),
 }
 WIP = "not claimed: the generated-input check designed in DESIGN.md §4 was not built within the time available (the technique applies; nothing is asserted about this property)"
 
@@ -82,6 +86,7 @@ for p in props:
 ENGINES = [
  {"name": "E3-vecmodel", "path": "harness/src/vecmodel", "serves_properties": ["C03", "C04", "C07", "C08", "C13", "C14", "C16", "C20"], "kind_free_text": "vector op language + Vec<Option<T>> reference model + snapshot tree for rollback, generic over the format x element-type matrix"},
  {"name": "E7-codec", "path": "harness/src/props/c17.rs", "serves_properties": ["C17"], "kind_free_text": "encoders/decoders driven directly (hook H9) and through Database::open; reference decoders, mutation operators, counting global allocator"},
+ {"name": "E8-proc", "path": "harness/src/props/c18.rs", "serves_properties": ["C18"], "kind_free_text": "holder/open-attempt histories; second opens from threads and from re-exec'd child processes (vcheck --child-open)"},
  {"name": "E1-rawmodel", "path": "harness/src/rawmodel", "serves_properties": ["C01", "C02", "C13", "C05", "C12", "C10"], "kind_free_text": "rawdb op language + byte-vector reference model + extent invariants, driven by proptest"},
 ]
 manifest = {
